@@ -32,6 +32,7 @@ type injection struct {
 	SrcField string
 	DstField string
 	File     string // whole-file form: name of the form
+	Args     []string // command line instead of the plain `setup.go`
 	Solo     bool   // cannot be combined with another injection (the form has no method body to inject into)
 	NoVet    bool   // the input does not type-check on purpose
 }
@@ -231,6 +232,10 @@ func injCatalogue(seed int64, nSoup int) []injection {
 		c = append(c, injection{ID: "file_" + f.id, Stage: "find", Must: f.must, Pos: "none", Slot: "file", File: f.id,
 			Solo: f.id == "empty_interface" || f.id == "only_comments"})
 	}
+	// command lines that point the output at a source file
+	c = append(c, injection{ID: "cli_out_is_setup", Stage: "load", Must: "reject", Pos: "none", Slot: "cli", Solo: true, Args: []string{"-out", "setup.go", "setup.go"}})
+	c = append(c, injection{ID: "cli_dry_out_is_setup", Stage: "load", Must: "either", Pos: "none", Slot: "cli", Solo: true, Args: []string{"-dry", "-out", "setup.go", "setup.go"}})
+	c = append(c, injection{ID: "cli_out_is_setup_abs_dot", Stage: "load", Must: "reject", Pos: "none", Slot: "cli", Solo: true, Args: []string{"-out", "./setup.go", "setup.go"}})
 	// byte soup in notation position
 	alphabet := []string{":", "$", "/", "(", ")", ".", "\\", "[", "A", "map", "skip", "conv", "literal", " ", "*", "\"", "\u00a0", "\v", "\u2003"}
 	rng := rand.New(rand.NewSource(seed))
@@ -473,7 +478,13 @@ func C14(c *core.Ctx) {
 		}
 	}
 	core.ParallelFor(len(runs), func(i int) {
-		runs[i].res = tool.Run(core.RunOpts{Dir: filepath.Join(root, runs[i].dir), Args: []string{"setup.go"}, Timeout: 10 * time.Second})
+		args := []string{"setup.go"}
+		for _, in := range runs[i].injs {
+			if in.Args != nil {
+				args = in.Args
+			}
+		}
+		runs[i].res = tool.Run(core.RunOpts{Dir: filepath.Join(root, runs[i].dir), Args: args, Timeout: 10 * time.Second})
 	})
 	var mu sync.Mutex
 	kinds := map[string]bool{}
